@@ -314,7 +314,7 @@ theorem lookup_map_keep' {bs : List (Name × Def)} {f : Name × Def → Name × 
 installed its interface, if nothing of it had been inlined before -/
 theorem observe_after_link (env1 : Env) (s2 : State) (m' : Mod) (i : Iface)
     (hbinds : ∀ n ∈ m'.importNames, m'.binds.lookup n = env1.lookup n ∧ (env1.lookup n).isSome = true)
-    (hinl : m'.inl = [])
+    (hinl : m'.inl = []) (hmc : m'.mcode = none)
     (hlinked : ∀ n id, env1.lookup n = some (.func id) → funcLinked s2 id = true)
     (n : Name) (u : Use) (hu : m'.imps.lookup n = some u)
     (hnz : env1.lookup n ≠ some (.ext 0)) :
@@ -325,17 +325,30 @@ theorem observe_after_link (env1 : Env) (s2 : State) (m' : Mod) (i : Iface)
   obtain ⟨hb, hsome⟩ := hbinds n hn
   obtain ⟨d, hd⟩ := Option.isSome_iff_exists.1 hsome
   rw [hd] at hb
-  -- fields of the module after link + first translation
-  have hbinds2 : (codeMod env1 (installIface i (inlineMod m'))).binds.lookup n = some d := by
-    unfold codeMod
-    split
-    · simpa [installIface, inlineMod] using hb
-    · simp only [installIface, inlineMod]
-      rw [lookup_map_keep' (by intro p; split <;> rfl) n, hb]
-      simp only [Option.map_some, hu, hd]
-      cases u <;> rfl
-  have hinl2 : (codeMod env1 (installIface i (inlineMod m'))).inl = (inlineMod m').inl := by
-    rw [(codeMod_fields _ _).2.2.1]; rfl
+  -- what the code that runs after link + first translation was made from
+  have hmap : ∀ (bs : List (Name × Def)), bs.lookup n = some d →
+      (bs.map (fun (p : Name × Def) =>
+        match m'.imps.lookup p.1, env1.lookup p.1 with
+        | some .call, _ => p
+        | _, some d => (p.1, d)
+        | _, none => p)).lookup n = some d := by
+    intro bs hbs
+    rw [lookup_map_keep' (by intro p; split <;> rfl) n, hbs]
+    simp only [Option.map_some, hu, hd]
+    cases u <;> rfl
+  have hrun : (codeMod env1 (installIface i (inlineMod m'))).running.1.lookup n = some d ∧
+      (codeMod env1 (installIface i (inlineMod m'))).running.2 = (inlineMod m').inl := by
+    cases i with
+    | interp =>
+      simp only [codeMod, installIface, inlineMod, Mod.running, hmc]
+      exact ⟨hmap _ hb, rfl⟩
+    | gen =>
+      simp only [codeMod, installIface, inlineMod, Mod.running, hmc]
+      exact ⟨hb, rfl⟩
+    | lazy =>
+      simp only [codeMod, installIface, inlineMod, Mod.running, hmc]
+      exact ⟨hb, rfl⟩
+  obtain ⟨hbinds2, hinl2⟩ := hrun
   unfold observeImp
   simp only [hinl2, hbinds2, hd, Option.map_some]
   cases u with
@@ -392,13 +405,15 @@ theorem obs_aux {s : State} {r : List Op} {i : Iface} {res : Resolver} (hinv : I
     (hr : resolveQueue res s.queue s.env = (env', q', none))
     (heq : link s (some i) res = linkResult s (some i) env' q')
     (hext : Extended res (s.queue.flatMap Mod.importNames) s.env env')
-    (m m' : Mod) (hq : m ∈ s.queue) (hb : Bound env' m m') (hinl : m.inl = []) :
+    (m m' : Mod) (hq : m ∈ s.queue) (hb : Bound env' m m') (hinl : m.inl = [])
+    (hmc : m.mcode = none) :
     (codeMod env' (installIface i (inlineMod m'))).id = m.id ∧
       ∀ n u, m.imps.lookup n = some u → wanted r res n ≠ some (.ext 0) →
         observeImp (callAll (link s (some i) res)) (codeMod env' (installIface i (inlineMod m')))
           (n, u) = (wanted r res n).map Def.value := by
   have hm'imps : m'.imps = m.imps := by rw [hb.1]
   have hm'inl : m'.inl = [] := by rw [hb.1]; exact hinl
+  have hm'mc : m'.mcode = none := by rw [hb.1]; exact hmc
   have hm'id : m'.id = m.id := by rw [hb.1]
   refine ⟨?_, ?_⟩
   · rw [(codeMod_fields _ _).1]; simpa [installIface, inlineMod] using hm'id
@@ -428,14 +443,14 @@ theorem obs_aux {s : State} {r : List Op} {i : Iface} {res : Resolver} (hinv : I
       | none =>
         have : n ∈ s.queue.flatMap Mod.importNames := mem_flatMap_importNames.2 ⟨m, hq, hnm⟩
         simp [this]
-    rw [observe_after_link env' _ m' i hbinds hm'inl hlinked n u (by rw [hm'imps]; exact hu)
+    rw [observe_after_link env' _ m' i hbinds hm'inl hm'mc hlinked n u (by rw [hm'imps]; exact hu)
       (by rw [hw]; exact hnz), hw]
 
 /-- state-level form of `observed_spec` -/
 theorem observed_after_link {s : State} {r : List Op} {i : Iface} {res : Resolver} (hinv : Inv s r)
     (hs : s.err = none) (h : (link s (some i) res).err = none)
     (hfl : FuncsLoaded (link s (some i) res)) :
-    Forall2 (fun m m2 => m.inl = [] → m2.id = m.id ∧
+    Forall2 (fun m m2 => m.inl = [] → m.mcode = none → m2.id = m.id ∧
         ∀ n u, m.imps.lookup n = some u → wanted r res n ≠ some (.ext 0) →
           observeImp (callAll (link s (some i) res)) m2 (n, u) = (wanted r res n).map Def.value)
       s.queue ((callAll (link s (some i) res)).done.drop s.done.length) := by
@@ -449,14 +464,14 @@ theorem observed_after_link {s : State} {r : List Op} {i : Iface} {res : Resolve
     rw [← this, drop_append_length]
     rfl
   rw [hdone]
-  have key : Forall2 (fun m m' => m.inl = [] →
+  have key : Forall2 (fun m m' => m.inl = [] → m.mcode = none →
       (codeMod env' (installIface i (inlineMod m'))).id = m.id ∧
         ∀ n u, m.imps.lookup n = some u → wanted r res n ≠ some (.ext 0) →
           observeImp (callAll (link s (some i) res)) (codeMod env' (installIface i (inlineMod m')))
             (n, u) = (wanted r res n).map Def.value) s.queue q' := by
     refine hf.imp_mem ?_
-    intro m m' hq _ hb hinl
-    exact obs_aux hinv hs h hfl hr heq hext m m' hq hb hinl
+    intro m m' hq _ hb hinl hmc
+    exact obs_aux hinv hs h hfl hr heq hext m m' hq hb hinl hmc
   exact key.map_right (fun m' => codeMod env' (installIface i (inlineMod m'))) (fun m m' h1 => h1)
 
 
